@@ -335,6 +335,40 @@ func checkC20(p *Prog, r *Report) {
 	p.runPrefixRule(r, "E1.prefixbound", funcs, 4)
 	p.patternReturnRule(r)
 	p.subrepoCarriedRule(r)
+	p.includesOperandRule(r)
+}
+
+// includesOperandRule: BuildLabel.Includes compares a pattern (receiver) with a concrete label or package
+// (argument). Given a pattern as its argument it reads `//p/...` as a target called "..." in package p, so
+// `//p:all`.Includes(`//p/...`) is true. No call site may pass a pattern: an element of a visibility list,
+// of the include/exclude lists, or a parsed visibility string.
+func (p *Prog) includesOperandRule(r *Report) {
+	rule := "E7.includes-operand-is-concrete"
+	patternSrc := []string{"core.BuildTarget.Visibility", "core.BuildState.Include", "core.BuildState.Exclude", "core.BuildState.ExcludeTargets", "call:parse/asp.parseVisibility", "core.Configuration.Gc.Keep", "core.BuildTarget.Requires", "core.BuildState.ExperimentalLabels"}
+	n := 0
+	for _, f := range p.allFuncs {
+		if !strings.HasPrefix(fnPkg(f), modPath+"/src/") {
+			continue
+		}
+		eachInstr(f, false, func(_ *ssa.Function, i ssa.Instruction) {
+			c, ok := i.(*ssa.Call)
+			if !ok || calleeName(&c.Call) != "(core.BuildLabel).Includes" || len(c.Call.Args) < 2 {
+				return
+			}
+			n++
+			tg := tagsOf(c.Call.Args[1], SliceOpts{StopAtCall: func(cc *ssa.Call) bool { return true }})
+			bad := ""
+			for _, s := range patternSrc {
+				if tg[s] {
+					bad = s
+				}
+			}
+			r.check(bad == "", rule, "argument of Includes in "+topFunc(f).Name(), p.pos(c.Pos()), fnName(f), "the argument does not come from a list of patterns", "BuildLabel.Includes is asked whether a pattern covers another pattern (argument from "+bad+"): it treats `//p/...` as a target named `...` of package p, so `//p:all` is said to cover `//p/...` and the wider entry is dropped or ignored")
+		})
+	}
+	if n < 6 {
+		r.unresolved(rule, "call sites of BuildLabel.Includes (found "+itoa(n)+", expected at least 6)")
+	}
 }
 
 // resultLeaves resolves result #idx of a value to the leaves it can come from, following calls into repository
@@ -505,6 +539,7 @@ func (p *Prog) patternReturnRule(r *Report) {
 			continue
 		}
 		nTrue, bad := 0, 0
+		rootTrue := false
 		var badSite token.Pos
 		for _, pa := range paths {
 			if pa.Ret == nil || len(pa.Ret.Results) != 1 {
@@ -526,6 +561,9 @@ func (p *Prog) patternReturnRule(r *Report) {
 				root = root || isRoot(rv)
 				pre = pre || isBoundedPrefix(rv)
 			}
+			if root {
+				rootTrue = true
+			}
 			if fn.Name() == "IsIncludedIn" {
 				sub = true // by contract the argument is a `...` label (callers checked below by E1)
 			}
@@ -543,11 +581,13 @@ func (p *Prog) patternReturnRule(r *Report) {
 		} else {
 			r.ok(rule, inst, p.pos(fn.Pos()), fnName(fn), itoa(nTrue)+" true-returning paths of "+itoa(len(paths))+" enumerated, all justified")
 		}
+		// the dual, for the one pattern a bounded prefix cannot express: `//...` has an empty package, and ""+"/" prefixes no package name
+		r.check(rootTrue, "E9.root-wildcard-handled", spec[1]+": the root pattern //... is answered by an explicit empty-package test", p.pos(fn.Pos()), fnName(fn), "a true-returning path carries the fact PackageName == \"\" (or \".\")", spec[1]+" decides `...` patterns by equality or HasPrefix(pkg, pattern+\"/\") only: for the root pattern //... the needle is \"/\", which prefixes no package name, so //... selects the root package alone (its sibling predicates special-case the empty package)")
 	}
 }
 
 func checkC22(p *Prog, r *Report) {
-	r.Explanation = "E1 prefixbound inside plz.FindAllBuildFiles and its walk callback (blacklist test, prefix tests) and presence of the prune conditions: the callback returns filepath.SkipDir under a test on core.OutDir, under a hidden-directory (\".\" prefix of the base name) test and inside the blacklist loop."
+	r.Explanation = "E1 prefixbound over package plz (label expansion: findOriginalTasks and helpers, FindAllBuildFiles and its walk callback with the blacklist and prefix tests) and presence of the prune conditions: the callback returns filepath.SkipDir under a test on core.OutDir, under a hidden-directory (\".\" prefix of the base name) test and inside the blacklist loop."
 	r.NotCovered = []string{"the set of directories actually visited at run time", "completion helper in query/completions.go uses base-name equality (component exact by construction)"}
 	fn := p.Fn("plz", "FindAllBuildFiles")
 	if fn == nil {
@@ -565,6 +605,17 @@ func checkC22(p *Prog, r *Report) {
 	}
 	for _, f := range funcs {
 		collect(f)
+	}
+	for _, f := range p.Funcs("plz") {
+		dup := false
+		for _, g := range all {
+			if g == f {
+				dup = true
+			}
+		}
+		if !dup {
+			all = append(all, f)
+		}
 	}
 	p.runPrefixRule(r, "E1.prefixbound", all, 2)
 	// prune conditions
@@ -734,6 +785,48 @@ func checkC22(p *Prog, r *Report) {
 					}
 				}
 			})
+			// the emission is guarded by exactly: a BUILD file name, not a directory, none of the skip conditions
+			nSend := 0
+			eachInstr(cb, false, func(_ *ssa.Function, i ssa.Instruction) {
+				snd, ok := i.(*ssa.Send)
+				if !ok {
+					return
+				}
+				nSend++
+				isBuild, notDir := false, false
+				extra := ""
+				for _, f := range factsAt(snd) {
+					switch v := f.V.(type) {
+					case *ssa.Call:
+						if callsFn(v, ibf) {
+							if f.Val {
+								isBuild = true
+							}
+							continue
+						}
+						if isCallTo(v, "strings.HasPrefix") || strings.HasSuffix(calleeName(&v.Call), "cli.ContainsString") {
+							continue // negations of the directory skip rules
+						}
+						extra = calleeName(&v.Call)
+					case *ssa.Parameter:
+						if !f.Val && v.Name() == "isDir" {
+							notDir = true
+						}
+					case *ssa.BinOp:
+						// comparisons of the name with constants / the prefix (skip rules)
+					default:
+						if fv := resolveParam(f.V); fv != nil && !f.Val {
+							notDir = true
+						} else {
+							extra = f.V.String()
+						}
+					}
+				}
+				r.check(isBuild && notDir && extra == "", rule, "a BUILD file is emitted for every non-directory with a BUILD file name", p.pos(snd.Pos()), fnName(cb), "the send is guarded by IsABuildFile(base) and !isDir (as given by the walker) and by nothing else", "the walker emits a BUILD file under an extra or different condition ("+extra+"): entries the rest of Please accepts as a package's BUILD file (fs.IsPackage asks only for a non-directory, so a symlinked BUILD file counts) are not found by `...`")
+			})
+			if nSend == 0 {
+				r.unresolved(rule, "channel send of the BUILD file name in the walk callback")
+			}
 			r.check(used, rule, "the walker tests the base name with IsABuildFile", p.pos(cb.Pos()), fnName(cb), "config.IsABuildFile(filepath.Base(name))", "the walker no longer recognises BUILD files through Configuration.IsABuildFile on the base name")
 		}
 	}
